@@ -306,6 +306,9 @@ pub fn check_corruptions(ai: usize, shape: &Shape, value: &Value, burst_seed: u6
 }
 
 pub fn replay(case: &Json, l: &mut Local) -> CaseResult {
+    if case.get("storage").and_then(|s| s.as_str()) == Some("heapless") {
+        return super::c05::replay(case, l);
+    }
     let shape = shape_of(case);
     let name = case["alg"].as_str().unwrap_or("");
     let ai = apis().iter().position(|a| a.params.name == name).unwrap_or(0);
@@ -328,7 +331,7 @@ pub fn run(ctx: &Ctx) {
         "cases: generated (shape,value) x 14 catalogue algorithms (widths 8,16,32,64,82-in-128; reflected and not; non-zero \
          init/xorout) x {slice, heapless, alloc}; per frame every single-bit flip, bursts (first+last bit set, span <= width, \
          algorithm bit order) at every payload offset (all interiors for span <= 10, sampled beyond), every checksum bit flip, \
-         truncation at every length; arbitrary random inputs. oracle: bit-serial reference CRC from catalogue parameters; \
+         truncation at every length; messages with an empty plain encoding; heapless vectors of capacity exactly / one below / one above the frame length (to_vec_u8..u128, to_vec_crc32); arbitrary random inputs. oracle: bit-serial reference CRC from catalogue parameters; \
          converse on every accepted input (consumed bytes followed by their correct little-endian checksum, consumed == \
          reference decoder). non-trivial = corrupted frame whose plain decode keeps its length (only the CRC can reject it), or \
          forward case with >= 2 payload bytes; distinct = hash(algorithm, input)",
@@ -381,6 +384,34 @@ pub fn run(ctx: &Ctx) {
             check_forward(ai, &s, &v, &[], l)
         });
     }
+    // messages whose plain encoding is empty: the frame is the checksum alone, with and without bytes behind it
+    {
+        let shapes: Vec<(Shape, Value)> = vec![
+            (Shape::Unit, Value::Unit),
+            (Shape::UnitStruct(crate::dynshape::Name("Ack")), Value::Unit),
+            (Shape::Tuple(vec![]), Value::List(vec![])),
+            (Shape::Tuple(vec![Shape::Unit, Shape::Unit]), Value::List(vec![Value::Unit, Value::Unit])),
+            (Shape::Newtype(crate::dynshape::Name("Beat"), Box::new(Shape::Unit)), Value::Newtype(Box::new(Value::Unit))),
+            (Shape::Struct(crate::dynshape::Name("Hb"), vec![(crate::dynshape::Name("a"), Shape::Unit)]), Value::List(vec![Value::Unit])),
+        ];
+        let tails: [&[u8]; 4] = [&[], &[0], &[0xFF, 1], &[1, 2, 3, 4, 5, 6, 7, 8, 9]];
+        let total = (na * shapes.len() * tails.len()) as u64;
+        let shapes = &shapes;
+        ctx.par_range("empty-message-frames", total, move |i, l| {
+            let i = i as usize;
+            let (s, v) = &shapes[(i / na) % shapes.len()];
+            let r = check_forward(i % na, s, v, tails[i / (na * shapes.len())], l);
+            l.nontrivial(&(i, "empty-message"));
+            r
+        });
+    }
+    // heapless storage dimensioned exactly (capacity == plain length + checksum width, one less, one more)
+    ctx.par_proptest(
+        "heapless-exact-capacity",
+        ctx.tier.pick(20_000, 200_000),
+        || (gen::arb_typed(scfg.clone(), ValCfg { max_len: 40, max_seq: 3 }), 0..super::c05::HCAPS.len(), 2usize..7),
+        |((s, v), ci, fi), l| super::c05::check_hvec(s, v, *ci, *fi, l),
+    );
     // corruption families on raw payloads (length is immune to corruption) and on typed values
     let n = ctx.tier.pick(1_000, 12_000);
     ctx.par_proptest(
